@@ -375,6 +375,15 @@ def main():
         rc = thorough.run(prop, spec, units, seed)
     return rc
 
+def _load_bridges():
+    """tools/bridge_links.py verifies, for every stub that names the unit proving it, that the stub's contract follows from the contract verified
+    there; its result file is committed (bridges.json). It depends on the contracts only, not on /repo, so it is not re-run by every check."""
+    try:
+        return {(b["stub_unit"], b["function"], b["proved_in"]): b for b in json.load(open(os.path.join(ROOT, "bridges.json")))}
+    except Exception:
+        return {}
+BRIDGES = _load_bridges()
+
 def write_evidence(prop, tier, seed, spec, results, kani_results, obligations, discharged, samples, violations, t0, note="", units=(), known=(), solver_ms=0, fn_count=0):
     trusted, functions, holes = [], [], []
     per_run = []
@@ -384,7 +393,14 @@ def write_evidence(prop, tier, seed, spec, results, kani_results, obligations, d
         for fr in meta["verified"]:
             functions.append(f"{fr['file']}::{fr['qual']}")
         for st in meta["stubs"]:
-            trusted.append(f"assumed contract (class C stub{', proved in unit ' + st['proved_in'] if st.get('proved_in') else ''}): {st['file']}::{st['qual']}")
+            link = ""
+            if st.get("proved_in"):
+                b = BRIDGES.get((r["unit"], st["qual"], st["proved_in"]))
+                if b and b["status"].startswith("bridged"):
+                    link = f", its contract follows from the one unit {st['proved_in']} verifies ({b['status']}; bridge checked by tools/bridge_links.py, key {b.get('key')})"
+                else:
+                    link = f", supported by unit {st['proved_in']} in that unit's own vocabulary, not derived from it" + (f" ({b['status'][:90]})" if b else "")
+            trusted.append(f"assumed contract (class C stub{link}): {st['file']}::{st['qual']}")
         for e in meta["edits"]:
             holes.append(e)
         per_run.append(dict(unit=r["unit"], feature_set=r["fs"], status=r["status"], verus_verified=r.get("verified_count"),
